@@ -116,6 +116,9 @@ pub fn check_filter_text(run: &Run, prop: &str, b: &Bench, e: &Expr, text: &str)
                     out.falses += 1
                 }
             }
+            Ok(Ok(_)) if run.types_only.load(std::sync::atomic::Ordering::Relaxed) => {
+                run.count("results_differing_from_the_reference_semantics_not_judged_here", 1);
+            }
             Ok(Ok(g)) => run.violation(
                 format!("{prop}:wrong-result:{}:{text}", b.tag),
                 format!("{text:?} on {:?}: engine {g}, reference {want}", short_ctx(&b.mctxs[i])),
@@ -185,11 +188,18 @@ pub fn check_value(run: &Run, prop: &str, b: &Bench, l: &Lhs) -> u64 {
             })
         });
         n += 1;
+        let types_only = run.types_only.load(std::sync::atomic::Ordering::Relaxed);
         let ok = match (&got, &want) {
-            (Ok(Ok(Ok(g))), Ok(w)) => g == w && g.ty() == ty && g.well_typed(),
+            (Ok(Ok(Ok(g))), Ok(w)) => (g == w || types_only) && g.ty() == ty && g.well_typed(),
             (Ok(Ok(Err(g))), Err(w)) => g == w && *g == ty,
+            // which of value / absence it is belongs to the semantics; the static type does not
+            (Ok(Ok(Ok(g))), Err(_)) if types_only => g.ty() == ty && g.well_typed(),
+            (Ok(Ok(Err(g))), Ok(_)) if types_only => *g == ty,
             _ => false,
         };
+        if types_only && ok && !matches!((&got, &want), (Ok(Ok(Ok(g))), Ok(w)) if g == w) && !matches!((&got, &want), (Ok(Ok(Err(_))), Err(_))) {
+            run.count("results_differing_from_the_reference_semantics_not_judged_here", 1);
+        }
         if !ok {
             run.violation(
                 format!("{prop}:value-wrong:{}:{text}", b.tag),
